@@ -1013,6 +1013,19 @@ func (pdCoord *PDCoordinator) removeNamespaceFromNode(origNSInfo *cluster.Partit
 	if !origNSInfo.IsISRQuorum() {
 		return ErrNamespaceReplicaNotEnough
 	}
+	// as for a failed node (handleNamespaceMigrate): do not mark a removal while the alive
+	// replicas are not a majority, the raft group could not commit the membership change
+	currentNodes, _ := pdCoord.getCurrentNodesWithRemoving()
+	aliveReplicas := 0
+	for _, replica := range origNSInfo.RaftNodes {
+		if _, ok := currentNodes[replica]; ok {
+			aliveReplicas++
+		}
+	}
+	if aliveReplicas <= origNSInfo.Replica/2 {
+		cluster.CoordLog().Infof("namespace: %v alive replica %v is not enough while removing node %v", origNSInfo.GetDesp(), aliveReplicas, nid)
+		return ErrNamespaceReplicaNotEnough
+	}
 	if origNSInfo.Removings == nil {
 		origNSInfo.Removings = make(map[string]cluster.RemovingInfo)
 	}
